@@ -251,7 +251,17 @@ pub fn gen_scenario(seed: u64, cfg: &GenCfg) -> Scenario {
     } else {
         // C: long sequential history with a fixed probe at several positions
         let nc = rng.range(1, 2) as usize;
-        let max_n: u64 = if cfg.thorough { 20_000 } else { 600 };
+        // thorough: once in a few hundred history scenarios on a tiny graph, a very
+        // long history (state machines with a period up to ~10^6 calls)
+        let max_n: u64 = if cfg.thorough {
+            if main.spec.edges.len() <= 3 && rng.chance(1, 300) {
+                2_000_000
+            } else {
+                20_000
+            }
+        } else {
+            600
+        };
         for _ in 0..nc {
             let mut ops = vec![probe.clone()];
             let segs = rng.range(1, 3);
